@@ -425,6 +425,19 @@ func c19Parse(kind c19Kind, fn qpack.DecodeFunc, limit int, seen *[]qpack.Header
 	return r
 }
 
+// c19V logs at most a few violations per signature and process (a violation that is listed as a
+// known finding must not use up the log budget and thereby hide a different one); the rest is counted.
+var c19VSeen = map[string]int{}
+
+func c19V(c *evlog.Case, sig, detail string, trace any) {
+	c19VSeen[sig]++
+	if c19VSeen[sig] > 3 {
+		c.Count("violations_suppressed:"+sig, 1)
+		return
+	}
+	c.Violation(sig, detail, trace)
+}
+
 type c19Stats struct {
 	n map[string]int64
 }
@@ -516,7 +529,7 @@ func c19Check(c *evlog.Case, st *c19Stats, kind c19Kind, fields []c19F, limit in
 		st.add("lists_" + c19KindName[kind])
 		st.add("decode_error_lists")
 		if r.err == nil {
-			c.Violation("C19|"+comp+"|accepted_on_decode_error", fmt.Sprintf("accepted although the qpack decode function failed after %d field(s)", len(seen)), c19Trace(kind, fields, limit, mode))
+			c19V(c, "C19|"+comp+"|accepted_on_decode_error", fmt.Sprintf("accepted although the qpack decode function failed after %d field(s)", len(seen)), c19Trace(kind, fields, limit, mode))
 			c.Eval(c19KindName[kind] + "/decodeerr/accepted")
 			return false, r.err
 		}
@@ -528,7 +541,7 @@ func c19Check(c *evlog.Case, st *c19Stats, kind c19Kind, fields []c19F, limit in
 		}
 		// not the qpack class: legitimate only if the prefix alone is not acceptable either
 		if r2 := c19Parse(kind, c19DecodeFromSlice(seen, -1), limit, nil); r2.err == nil {
-			c.Violation("C19|"+comp+"|wrong_error_class|decode_error_not_qpack", fmt.Sprintf("decode function failed after a prefix of %d field(s) that is accepted on its own, but the error %q is not a *qpackError (would be signalled as H3_MESSAGE_ERROR instead of QPACK_DECOMPRESSION_FAILED)", len(seen), r.err), c19Trace(kind, fields, limit, mode))
+			c19V(c, "C19|"+comp+"|wrong_error_class|decode_error_not_qpack", fmt.Sprintf("decode function failed after a prefix of %d field(s) that is accepted on its own, but the error %q is not a *qpackError (would be signalled as H3_MESSAGE_ERROR instead of QPACK_DECOMPRESSION_FAILED)", len(seen), r.err), c19Trace(kind, fields, limit, mode))
 		}
 		c.Eval(c19KindName[kind] + "/decodeerr/malformed-first/" + c19Shape(seen))
 		return false, r.err
@@ -546,11 +559,11 @@ func c19Check(c *evlog.Case, st *c19Stats, kind c19Kind, fields []c19F, limit in
 		var qe *qpackError
 		switch {
 		case errors.As(r.err, &qe):
-			c.Violation("C19|"+comp+"|wrong_error_class|qpack_for_malformed", fmt.Sprintf("no decoding error occurred but the rejection %q is a *qpackError (signalled as QPACK_DECOMPRESSION_FAILED instead of H3_MESSAGE_ERROR)", r.err), c19Trace(kind, fields, limit, mode))
+			c19V(c, "C19|"+comp+"|wrong_error_class|qpack_for_malformed", fmt.Sprintf("no decoding error occurred but the rejection %q is a *qpackError (signalled as QPACK_DECOMPRESSION_FAILED instead of H3_MESSAGE_ERROR)", r.err), c19Trace(kind, fields, limit, mode))
 		case errors.Is(r.err, errHeaderTooLarge):
 			st.add("rejected_too_large")
 			if j.mask&c19rSize == 0 {
-				c.Violation("C19|"+comp+"|wrong_error_class|too_large_within_limit", fmt.Sprintf("size %d <= limit %d but rejected as too large", j.size, limit), c19Trace(kind, fields, limit, mode))
+				c19V(c, "C19|"+comp+"|wrong_error_class|too_large_within_limit", fmt.Sprintf("size %d <= limit %d but rejected as too large", j.size, limit), c19Trace(kind, fields, limit, mode))
 			}
 			if fp != "" {
 				fp += "/431"
@@ -584,13 +597,13 @@ func c19Check(c *evlog.Case, st *c19Stats, kind c19Kind, fields []c19F, limit in
 		if kind == c19Resp && r.rsp != nil {
 			detail += fmt.Sprintf("; handed to net/http: StatusCode=%d ContentLength=%d Header=%v", r.rsp.StatusCode, r.rsp.ContentLength, r.rsp.Header)
 		}
-		c.Violation("C19|"+comp+"|accepted_unsafe|"+reason, detail, c19Trace(kind, fields, limit, mode))
+		c19V(c, "C19|"+comp+"|accepted_unsafe|"+reason, detail, c19Trace(kind, fields, limit, mode))
 		return true, nil
 	}
 	st.add("accepted_safe")
 	want, clOverflow := c19ModelDecode(kind, fields)
 	bad := func(what, f string, a ...any) {
-		c.Violation("C19|"+comp+"|decoded_differs|"+what, fmt.Sprintf(f, a...), c19Trace(kind, fields, limit, mode))
+		c19V(c, "C19|"+comp+"|decoded_differs|"+what, fmt.Sprintf(f, a...), c19Trace(kind, fields, limit, mode))
 	}
 	var hdr http.Header
 	switch kind {
